@@ -15,8 +15,11 @@
 //!   longstring  operator list with > 65536 slots (ring of 256 spins, beta = 100): diagonal / cluster / RVB interleavings
 //!               under the pool hook log
 //!   longloops   directed loops on a periodic XX chain (L = 256, beta = 64, n ~ 9000), several loops per diagonal sweep
+//!   densegraph  fully connected +-J model on ~155 spins under RVB: one RVB region spans > 128 world lines
+//!   hubstar     central-spin star with > 72000 leaves under RVB: a vertex of degree > 65535 (thorough tier of `all` only)
 //!   all         everything above (scenarios run on threads; output order and content are deterministic in --seed)
-//! Witness modes (never part of `all`): see `design_notes/BigScale.md`.
+//! Witness mode (never part of `all`, not wired): `clusterquad` — wall time of one cluster update on N almost decoupled spins
+//! grows x4 per doubling of N (re-scan of the boundary table per component), see `design_notes/BigScale.md`.
 
 #![allow(clippy::too_many_arguments, clippy::type_complexity)]
 
@@ -1333,6 +1336,77 @@ fn sc_beta_ladder(seed: u64, thorough: bool) -> Out {
     out
 }
 
+/// replica ladder of the fully connected model (three transverse fields / betas): the Hamiltonian part of the exchange ratio
+/// is read from the per-bond counters of > 65536 bonds; recomputed here from the operator strings by operator SHAPE
+fn sc_full_ladder(seed: u64, thorough: bool) -> Out {
+    let mut out = Out::default();
+    let mut r = SplitMix64::new(seed);
+    let n = 400 + r.below(12) as usize;
+    let j = -1.0 / n as f64;
+    let mut edges = vec![];
+    for a in 0..n {
+        for b in a + 1..n {
+            edges.push(((a, b), j));
+        }
+    }
+    let pars = [(1.0, 0.7), (1.125, 0.75), (1.25, 0.8)];
+    let reps: Vec<(ISpec, f64)> = pars.iter().map(|(g, b)| (ISpec::new("full", n, edges.clone(), *g, 0.0), *b)).collect();
+    let head = format!("manybonds full-ladder n={} bonds={} (Gamma, beta)={:?}", n, reps[0].0.nbonds(), pars);
+    let st = gen_state(&mut r, n);
+    let rounds = if thorough { 120 } else { 30 };
+    ladder_run(&mut out, "manybonds.full_ladder", &head, reps, n, vec![st; 3], 30, rounds, NOFOLD, &mut r, &|_| true);
+    out
+}
+/// central-spin star: one hub coupled to > 65535 leaves (|J| = 1/256, alternating sign), Gamma = 0.3, beta = 1: a vertex of
+/// degree > 65535, so one RVB region has > 65535 bonds on its boundary. Legality of every stored operator after every sweep.
+fn sc_star(seed: u64, thorough: bool) -> Out {
+    let mut out = Out::default();
+    let mut r = SplitMix64::new(seed);
+    let leaves = 72_000 + r.below(2_000) as usize;
+    let j = 1.0 / 256.0;
+    let edges: Vec<((usize, usize), f64)> = (0..leaves).map(|i| ((0, i + 1), if i % 2 == 0 { -j } else { j })).collect();
+    let spec = ISpec::new("star", leaves + 1, edges, 0.3, 0.0);
+    let beta = 1.0;
+    let mut g = spec.build(60_000, (0..leaves + 1).map(|_| r.coin()).collect(), r.next());
+    let head = format!("hubstar {} beta={} hub_degree={}", spec.token(), beta, leaves);
+    for step in 0..2 {
+        let mut c = Chk::new();
+        let t = Instant::now();
+        let sc = diag_step_checked(&mut g, &spec, beta, NOFOLD, &mut c, &mut r);
+        out.case(true, format!("{} thermalise {} single_diagonal_step {}", head, step, if sc.is_some() { ctx(&g) } else { "-".into() }), c.done());
+        let sc = match sc {
+            Some(s) => s,
+            None => return out,
+        };
+        let mut c = Chk::new();
+        let t1 = Instant::now();
+        let after = cluster_step_checked(&mut g, &spec, &sc, NOFOLD, &mut c, &mut r, &mut out, "hubstar");
+        if std::env::var("BIGSCALE_TIMING").is_ok() {
+            eprintln!("STAR step {} diag+checks {:.2}s cluster+checks {:.2}s n={}", step, (t1 - t).as_secs_f64(), t1.elapsed().as_secs_f64(), sc.ops.len());
+        }
+        out.case(true, format!("{} thermalise {} single_cluster_step {}", head, step, if after.is_some() { ctx(&g) } else { "-".into() }), c.done());
+        if after.is_none() {
+            return out;
+        }
+    }
+    let rounds = if thorough { 40 } else { 20 };
+    for round in 0..rounds {
+        let mut c = Chk::new();
+        let alive = rvb_sweep_checked(&mut g, &spec, Some(16), if round % 4 == 3 { NOFOLD } else { LIGHT }, &mut c, &mut r, &mut out, "hubstar");
+        out.case(true, format!("{} round {} single_rvb_sweep(16) {}", head, round, if alive { ctx(&g) } else { "-".into() }), c.done());
+        if !alive {
+            return out;
+        }
+        let mut c = Chk::new();
+        let alive = diag_step_checked(&mut g, &spec, beta, if round % 3 == 2 { NOFOLD } else { LIGHT }, &mut c, &mut r).is_some();
+        out.case(true, format!("{} round {} single_diagonal_step {}", head, round, if alive { ctx(&g) } else { "-".into() }), c.done());
+        if !alive {
+            return out;
+        }
+    }
+    out
+}
+
 // ------------------------------------------------------------------------------------------------------------------
 // bigcluster: one cluster with more than 33000 operators
 // ------------------------------------------------------------------------------------------------------------------
@@ -1809,8 +1883,14 @@ fn xx_chain(seed: u64, steps: usize, loops: usize, out: &mut Out) {
                 max_draws = max_draws.max(d);
                 tot_draws += d;
                 nloops += 1;
-                let sc = check_xx(&q, &spec, false, false, &mut c, &mut r);
-                c.ck(sc.ops.len() == n, || format!("C07 a loop update changed the number of operators {} -> {}", n, sc.ops.len()));
+                // the loop update must end on a valid configuration of the same operators (C04's mechanism; the violated
+                // invariant is named after the colon)
+                let mut cl = Chk::new();
+                let sc = check_xx(&q, &spec, false, false, &mut cl, &mut r);
+                cl.ck(sc.ops.len() == n, || format!("C07 a loop update changed the number of operators {} -> {}", n, sc.ops.len()));
+                for e in cl.errs {
+                    c.res(Err(format!("C04 loop_update ({} rng draws) left an invalid configuration: {}", d, e)));
+                }
             }
             if !alive {
                 break;
@@ -1844,15 +1924,15 @@ fn xx_chain(seed: u64, steps: usize, loops: usize, out: &mut Out) {
         out.add("longloops.minus_energy_x100_summed_over_chains", (100.0 * (sum_n as f64 / cnt_n as f64) / beta) as u64);
         out.add("longloops.chains_measured", 1);
         if cnt_n >= 500 {
-            // C04 (energy clause), generous: beta >= 60 is the ground state up to ~0.03, finite-size corrections are O(1/L)
+            // C04 (energy clause), generous (5%; observed scatter over 18 chains <= 1.2%): beta >= 60 is the ground state up to ~0.03, finite-size corrections are O(1/L)
             let e = -(sum_n as f64 / cnt_n as f64) / beta;
             let exact = -(l as f64) * (spec.c + std::f64::consts::FRAC_1_PI);
             if std::env::var("BIGSCALE_TIMING").is_ok() {
                 eprintln!("ENERGY chain {:x} beta {} E {:.3} exact {:.3} over {} steps", seed & 0xffff, beta, e, exact, cnt_n);
             }
             let mut c = Chk::new();
-            c.ck((e - exact).abs() <= 0.03 * exact.abs(), || {
-                format!("C04 reported energy -<n>/beta = {:.3} over {} steps, free-fermion value of the periodic XX chain {:.3} (tolerance 3%)", e, cnt_n, exact)
+            c.ck((e - exact).abs() <= 0.05 * exact.abs(), || {
+                format!("C04 reported energy -<n>/beta = {:.3} over {} steps, free-fermion value of the periodic XX chain {:.3} (tolerance 5%)", e, cnt_n, exact)
             });
             out.case(true, format!("{} energy over the last {} steps", head, cnt_n), c.done());
         }
@@ -1891,6 +1971,38 @@ fn sc_xx5(s: u64, t: bool) -> Out {
 }
 
 // ------------------------------------------------------------------------------------------------------------------
+// witness mode (never part of `all`, not wired): cost of one cluster update on N (almost) decoupled spins
+// ------------------------------------------------------------------------------------------------------------------
+/// `bigscale clusterquad`: chain of N spins with J = -2^-20 (no coupling operators in practice), Gamma = 0.3, beta = 1. Every
+/// spin that carries operators is a component of its own in the cluster adjacency graph, and `flip_each_cluster_rng` finds
+/// the next unvisited component by re-scanning the boundary table from slot 0 (`boundaries.iter().enumerate().find_map`),
+/// so one cluster update costs O(components x slots): wall time x4 per doubling of N while the diagonal sweep doubles.
+/// Timings are wall clock (not deterministic); the oracle column only reports consistency.
+fn mode_clusterquad(seed: u64) {
+    let mut r = SplitMix64::new(seed);
+    for n in [10_000usize, 20_000, 40_000, 80_000] {
+        let edges: Vec<((usize, usize), f64)> = (0..n).map(|i| ((i, (i + 1) % n), -(2f64.powi(-20)))).collect();
+        let spec = ISpec::new("weakchain", n, edges, 0.3, 0.0);
+        let mut g = spec.build(n, gen_state(&mut r, n), r.next());
+        let mut c = Chk::new();
+        g.single_diagonal_step(1.0);
+        g.single_cluster_step();
+        let t0 = Instant::now();
+        g.single_diagonal_step(1.0);
+        let td = t0.elapsed();
+        let t1 = Instant::now();
+        let k = g.single_cluster_step();
+        let tc = t1.elapsed();
+        check_ising(&g, &spec, LIGHT, &mut c, &mut r);
+        stat(&format!("witness.clusterquad.N{}.operators", n), g.get_n());
+        stat(&format!("witness.clusterquad.N{}.clusters", n), k);
+        stat(&format!("witness.clusterquad.N{}.diagonal_step_us", n), td.as_micros());
+        stat(&format!("witness.clusterquad.N{}.cluster_step_us", n), tc.as_micros());
+        emit(true, &format!("clusterquad weakchain N={} n={} clusters={}", n, g.get_n(), k), "ok", Some(c.done()));
+    }
+}
+
+// ------------------------------------------------------------------------------------------------------------------
 // driver
 // ------------------------------------------------------------------------------------------------------------------
 type Scn = (&'static str, &'static str, fn(u64, bool) -> Out);
@@ -1898,6 +2010,7 @@ fn scenarios() -> Vec<Scn> {
     vec![
         ("manybonds", "full", sc_full400),
         ("manybonds", "lattice", sc_lattice130),
+        ("manybonds", "full_ladder", sc_full_ladder),
         ("manyops", "onebond", sc_onebond),
         ("manyops", "onebond_ladder", sc_onebond_ladder),
         ("manyops", "beta_ladder", sc_beta_ladder),
@@ -1906,6 +2019,7 @@ fn scenarios() -> Vec<Scn> {
         ("longstring", "ring", sc_ring256),
         ("longstring", "schedule", sc_schedule),
         ("densegraph", "dense", sc_dense),
+        ("hubstar", "star", sc_star),
         ("longloops", "xx0", sc_xx0),
         ("longloops", "xx1", sc_xx1),
         ("longloops", "xx2", sc_xx2),
@@ -1922,7 +2036,15 @@ fn main() {
     quiet_panics();
     let a = args();
     let timing = std::env::var("BIGSCALE_TIMING").is_ok();
-    let sel: Vec<Scn> = scenarios().into_iter().filter(|(m, n, _)| a.mode == "all" || a.mode == *m || a.mode == format!("{}.{}", m, n)).collect();
+    if a.mode == "clusterquad" {
+        mode_clusterquad(a.seed);
+        return;
+    }
+    // `all` in the quick tier leaves `hubstar` out (its two cluster steps alone take ~10 s); `bigscale hubstar` runs it in any tier
+    let sel: Vec<Scn> = scenarios()
+        .into_iter()
+        .filter(|(m, n, _)| (a.mode == "all" && (a.thorough || *m != "hubstar")) || a.mode == *m || a.mode == format!("{}.{}", m, n))
+        .collect();
     if sel.is_empty() {
         eprintln!("unknown mode {}", a.mode);
         std::process::exit(2);
